@@ -308,15 +308,27 @@ class Driver:
             go = self.loop.create_future()
             hw['go'] = go
 
+            hold = self.loop.create_future() if spec.get('hold') else None
+            hw['hold'] = hold
+
             class Cmd(BaseCommand):
                 async def send(self, client):
+                    hw['issued_at'] = len(drv.events)          # execute() has been entered: the request is issued
                     ok = await go
                     if not ok:
-                        drv._ev(('SendFail', hw['index']))
+                        hw['send_failed'] = True
+                        if hw['index'] is not None:
+                            drv._ev(('SendFail', hw['index']))
                         raise SendFailure()
                     from aioslsk.protocol.messages import GetUserStatus
                     await client.network.send_server_messages(GetUserStatus.Request('u0'))
-                    drv._ev(('SendOk', hw['index']))
+                    hw['sent_at'] = len(drv.events)            # the request frame is on the wire
+                    if hold is not None:
+                        await hold                              # a slow send: command.send() has not returned to execute() yet
+                    if hw['index'] is not None:
+                        drv._ev(('SendOk', hw['index']))
+                    else:
+                        hw['late_registration'] = True          # the waiter does not exist yet although the request is out
                     hw['deadline'] = drv.loop.time() + spec['timeout']
 
                 def build_expected_response(self, client):
@@ -374,6 +386,10 @@ class Driver:
         if wn < len(self.waiters) and self.waiters[wn].get('go') is not None and not self.waiters[wn]['go'].done():
             self.waiters[wn]['go'].set_result(ok)
 
+    def release(self, wn):
+        if wn < len(self.waiters) and self.waiters[wn].get('hold') is not None and not self.waiters[wn]['hold'].done():
+            self.waiters[wn]['hold'].set_result(None)
+
     # --- results
     def result(self):
         from asyncio import InvalidStateError, CancelledError
@@ -420,6 +436,8 @@ class Driver:
                     hw['task'].cancel()
                 if hw.get('go') is not None and not hw['go'].done():
                     hw['go'].cancel()
+                if hw.get('hold') is not None and not hw['hold'].done():
+                    hw['hold'].cancel()
             self.loop.run_ready(3)
             for hw in self.waiters:      # retrieve exceptions so that nothing is reported at GC time
                 t = hw['task']
@@ -459,6 +477,8 @@ def run_script(script):
                     d.step()
             elif k == 'cancel':
                 d.cancel(op[1])
+            elif k == 'release':
+                d.release(op[1])
             elif k == 'go':
                 d.go(op[1], op[2])
             else:
@@ -478,6 +498,12 @@ def run_script(script):
                 'list_len': len(d.net._expected_response_futures), 'errlog': d.errlog,
                 'unhandled': [str(c.get('message')) + ':' + repr(c.get('exception')) for c in d.loop.unhandled],
                 'unmatched_feeds': {str(k): len(v) for k, v in d.pending_msgs.items() if v},
+                'execs': [{'wn': n, 'index': hw['index'], 'spec': hw['spec'], 'issued_at': hw.get('issued_at'), 'sent_at': hw.get('sent_at'),
+                           'send_failed': bool(hw.get('send_failed')), 'late_registration': bool(hw.get('late_registration')),
+                           'task_done': hw['task'].done(),
+                           'task_out': (None if not hw['task'].done() else 'cancelled' if hw['task'].cancelled() else
+                                        type(hw['task'].exception()).__name__ if hw['task'].exception() is not None else 'result')}
+                          for n, hw in enumerate(d.waiters) if hw['spec']['kind'] == 'exec' and hw['task'] is not None],
                 'setup_residue': d.setup_residue}
     finally:
         d.close()
@@ -573,6 +599,41 @@ def monitor(tr):
         # timeout is a timeout: timer fired while pending with no other cancel -> TimeoutError
         if i in armed_tmo and i not in ext_cancel and w['fut'] == (3, 0) and w['out'] not in ((2, 0), (4, 0)):
             v.append(('timeout-not-reported', f'waiter {i} timed out but the caller got {w["out"]}', {'waiter': i}))
+    # a command executed with a response: the first matching message handled after the request went out completes it
+    # (also while command.send() has not yet returned to execute()); a failed send leaves nothing listed
+    for x in tr.get('execs', []):
+        sp = x['spec']
+        i = x['index']
+        if x['send_failed']:
+            if i is not None and W[i]['inlist']:
+                v.append(('residue-after-send-failure', f'execute waiter {i}: command.send failed but its future is still listed', {'waiter': i}))
+            continue
+        if x['sent_at'] is None:
+            continue
+        def first_from(pos):
+            for k in range(pos, len(ev)):
+                e = ev[k]
+                if e[0] in ('Timeout', 'Cancel') and i is not None and e[1] == i:
+                    return None
+                if e[0] == 'Message' and spec_matches(sp, e[2]):
+                    return (k, e[1])
+            return None
+        first = first_from(x['sent_at'])
+        if first is None:
+            continue
+        # a request is pending from the moment execute() is entered: a matching message handled between that moment and the
+        # write of the request frame may legitimately have completed it already
+        early = first_from(x['issued_at']) if x['issued_at'] is not None else None
+        cancelled_early = any(e[0] == 'Cancel' and i is not None and e[1] == i for e in ev[:first[0]])
+        if cancelled_early or (i is None and x['task_out'] == 'cancelled'):
+            continue
+        got = None if i is None else W[i]['fut']
+        if got != (1, first[1]) and not (early is not None and got == (1, early[1])):
+            v.append(('reply-after-request-not-delivered',
+                      f'execute (harness waiter {x["wn"]}): message {first[1]} matches and was handled after the request had been sent, '
+                      f'but the request was not completed by it (future: {got}, caller: {x["task_out"]}'
+                      + (', the waiter was not registered yet' if x['late_registration'] or i is None else '') + ')',
+                      {'waiter': x['wn'], 'message': first[1]}))
     if tr['errlog'] != sum(1 for r in tr['raised'] if r):
         v.append(('error-log-mismatch', f"'error during callback' logged {tr['errlog']} times, {sum(tr['raised'])} raises observed", {}))
     if any(r[2] == 'done' for r in tr.get('setup_residue', [])):
@@ -680,7 +741,10 @@ def gen_waiter(rng):
         else:
             fields.append([fid, [rng.choice(['ge', 'lt']), rng.choice([0, 1, 2, 3])]])
     timeout = rng.choice([1, 2, 3, 5]) + rng.choice([0, 1, 2, 3]) / 16.0
-    return {'kind': kind, 'conn': conn, 'cls': cls, 'peer': peer, 'fields': fields, 'timeout': timeout}
+    sp = {'kind': kind, 'conn': conn, 'cls': cls, 'peer': peer, 'fields': fields, 'timeout': timeout}
+    if kind == 'exec' and rng.random() < 0.35:
+        sp['hold'] = True
+    return sp
 
 
 def gen_message_for(rng, sp):
@@ -761,6 +825,12 @@ def gen_script(rng):
             ops.append(['cancel', rng.randrange(registered)])
         elif registered:
             ops.append(['go', rng.randrange(registered), rng.random() < 0.8])
+        if registered and rng.random() < 0.15:
+            ops.append(['release', rng.randrange(registered)])
+    for j in range(registered):
+        if specs[j].get('hold') and rng.random() < 0.8:
+            ops.append(['release', j])
+            ops.append(['step', rng.choice([1, 2, 3])])
     return {'ops': ops}
 
 
@@ -789,6 +859,16 @@ def directed_scripts():
     out.append({'ops': [['reg', e], ['step', 1], ['feed', [m]], ['go', 0, True], ['step', 3]]})
     out.append({'ops': [['reg', e], ['step', 1], ['go', 0, False], ['step', 3], ['feed', [m]], ['step', 2]]})
     out.append({'ops': [['reg', e], ['step', 1], ['cancel', 0], ['step', 2], ['feed', [m]], ['step', 2]]})
+    # exec: the reply is handled while command.send() is still in flight (fast server / slow writer)
+    eh = dict(base, kind='exec', hold=True)
+    out.append({'ops': [['reg', eh], ['step', 1], ['go', 0, True], ['step', 4], ['feed', [m]], ['step', 2], ['release', 0], ['step', 3]]})
+    out.append({'ops': [['reg', eh], ['step', 1], ['go', 0, True], ['step', 4], ['feed', [m_other0 := {'conn': 'S', 'cls': 0, 'vals': {'0': 2, '1': 2, '2': 0}}, m]],
+                        ['step', 2], ['release', 0], ['step', 3], ['feed', [m]], ['step', 2]]})
+    out.append({'ops': [['reg', eh], ['reg', dict(base, kind='raw_s')], ['step', 1], ['go', 0, True], ['step', 4], ['feed', [m]], ['step', 1], ['release', 0], ['step', 3]]})
+    for k in range(0, 5):        # real send path only: the reply arrives k iterations after the send was started
+        out.append({'ops': [['reg', e], ['step', 1], ['go', 0, True], ['step', k], ['feed', [m]], ['step', 6]]})
+        out.append({'ops': [['reg', e], ['step', 1], ['go', 0, True], ['step', k], ['feed_soon', [m]], ['step', 6]]})
+    out.append({'ops': [['reg', eh], ['step', 1], ['go', 0, False], ['step', 3], ['feed', [m]], ['step', 2]]})
     # callable matchers
     wc = dict(base, kind='wait_s', fields=[[1, ['ge', 2]], [0, ['eq', 1]]])
     m_other = {'conn': 'S', 'cls': 0, 'vals': {'0': 2, '1': 3, '2': 0}}
